@@ -19,6 +19,7 @@ func init() {
 			"D4 the value-type dispatch on the remote read path is exhaustive over the five iterator/point types. " +
 			"D6 a remote iterator that breaks off makes the query fail: a coordinator handler that streams a query iterator to the connection writes to the connection when that call fails, before it returns (the reader takes a clean end of the connection for the end of the data; found and fixed in a6058eb). " +
 			"D7 every fan-out method of ClusterShardMapping/ClusterStoreMapping passes the loop over the remote shard groups on every path to a return that may report success, unless the path established that there are no remote groups. " +
+			"D8 the range predicates that select the shard groups of a query equal their specification (shared with C06 D5 / C08 D5). " +
 			"NOT decided: liveness of owners, equality of the merged result with a single-node result, a connection cut by the network or a crash of the serving node exactly at a frame boundary (the point stream has no end marker the reader insists on).",
 		RuleText:    "obligation = (rule, function, site); nil/outcome dataflow per decode site; per-iteration min/max count of bucket appends over the loop's path graph; case sets of type switches against the iterator family",
 		Assumptions: commonAssumptions,
